@@ -50,14 +50,15 @@ TableLen(Z) == LET n1 == Z.n + (IF Z.n = 0 \/ ~(Z.at[1] \prec WZero) THEN 1 ELSE
                IN  n1 + (IF lastNeg THEN 1 ELSE 0)
 DescOf(Z, D) == <<35, 116, 114, 97, 110, 115, 61>> \o WDec(W(TableLen(Z))) \o <<32, 35, 116, 121, 112, 101, 115, 61>>
                 \o WDec(W(D.typecnt)) \o <<32, 115, 112, 101, 99, 61, 39>> \o D.footer \o <<39>>
-\* with a DST rule the table is extended by the rule instants of 403 rule years (the local year of
-\* the last recorded transition and the 402 following) that lie after that transition
+\* with a DST rule the table is extended by the rule instants of 404 rule years (the year before the local year of
+\* the last recorded transition - whose last change may lie in that year's opening days -, that year and the 402 following)
+\* that lie after that transition
 ExtCount(Z) ==
   LET la == LastAt(Z)
-      y0 == LocalCiv0(la, LastType(Z).off)[1]
+      y0 == LocalCiv0(la, LastType(Z).off)[1] \ominus W(1)
       j0 == DaysFromCivil(y0, 1, 1)
-      two == RuleYears2(Z, j0, WMod(y0, 400), (Weekday(j0) + 1) % 7)          \* the instants of years y0, y0+1
-  IN  2 * 403 - Cardinality({i \in 1..Len(two) : two[i].at \preceq la})
+      three == RuleYears(Z, j0, WMod(y0, 400), 0, 0, (Weekday(j0) + 1) % 7, 3)          \* the instants of years y0-1, y0, y0+1
+  IN  2 * 404 - Cardinality({i \in 1..Len(three) : three[i].at \preceq la})
 TransPrefix(n) == <<35, 116, 114, 97, 110, 115, 61>> \o WDec(W(n)) \o <<32>>
 OkLoad(e) == /\ e.ub = 0
              /\ Class[e.z] \in {"zic", "zicD"} => e.ok = 1
